@@ -405,4 +405,5 @@ static void big_gen(Ctx& ctx) {
     });
 }
 
+VK_FRESH_THREADS;
 VK_MAIN("C04")
